@@ -79,9 +79,11 @@ func corpusFor(suffix string) []corpusFile {
 		kind2 := cEnum("Shipment_Leg_Priority", "pkg.Shipment.Leg.Priority", cEnumValue{"EXPRESS", "x"}, cEnumValue{"STANDARD", ""})
 		top := cEnum("Color", "pkg.Color", cEnumValue{"COLOR_RED", "red"}, cEnumValue{"COLOR_BLUE", ""})
 		plain := cEnum("Plain", "pkg.Plain", cEnumValue{"PLAIN_A", ""}, cEnumValue{"PLAIN_B", ""})
+		// custom strings with characters a Go string literal must escape (both plugins must spell them alike)
+		delim := cEnum("Delimiter", "pkg.Delimiter", cEnumValue{"DELIMITER_TAB", "a\tb"}, cEnumValue{"DELIMITER_BACKSLASH", "x\\y"}, cEnumValue{"DELIMITER_QUOTE", "q\"r"}, cEnumValue{"DELIMITER_NONE", ""})
 		task := nest(cMessage("Task", fld("id", "string")), nil, []*VStruct{prio})
 		ship := nest(cMessage("Shipment", fld("id", "string")), []*VStruct{nest(cMessage("Shipment_Leg", fld("n", "int32")), nil, []*VStruct{kind2})}, nil)
-		return []corpusFile{{"enums: partially annotated, nested, same short name", cFile([]*VStruct{task, ship}, []*VStruct{top, plain}, nil)}}
+		return []corpusFile{{"enums: partially annotated, nested, same short name, custom strings needing escapes", cFile([]*VStruct{task, ship}, []*VStruct{top, plain, delim}, nil)}}
 	case "_oneof_discriminator.pb.go":
 		var out []corpusFile
 		for _, flat := range []bool{false, true} {
